@@ -4,9 +4,11 @@
       nr_eval_t, nr_try_t    quadbez.rs   300-319  the two local helper functions
       quad_nearest_coeffs    quadbez.rs   320-326  coefficients of the critical-point cubic
       quad_nearest           quadbez.rs   299-346  impl ParamCurveNearest for QuadBez
+                             (= quad_nearest_with solve_cubic)
       nr_quads_count         cubicbez.rs  78-97    CubicBez::to_quads (the piece count)
       nr_quads_piece         cubicbez.rs  735-757  ToQuads::next (piece [i] of [n])
       cubic_nearest          cubicbez.rs  672-689  impl ParamCurveNearest for CubicBez
+                             (= cubic_nearest_with quad_nearest)
       seg_nearest            bezpath.rs   902-910  impl ParamCurveNearest for PathSeg
 
     The result [Nearest { distance_sq, t }] is the pair [(t, distance_sq)].  [r_best.unwrap()]
@@ -89,9 +91,52 @@ Definition quad_nearest_from_roots (q : QuadBez T) (p : Point T) (roots : list T
   | None => None                       (* r_best.unwrap() *)
   end.
 
-Definition quad_nearest (q : QuadBez T) (p : Point T) : option (T * T) :=
+(* [nearest] with the cubic solver as a parameter (the theorems of C09 are stated for any
+   root-complete solver); the code calls [solve_cubic] *)
+Definition quad_nearest_with (solver : T -> T -> T -> T -> list T) (q : QuadBez T) (p : Point T)
+  : option (T * T) :=
   let '(k0, k1, k2, k3) := quad_nearest_coeffs q p in
-  quad_nearest_from_roots q p (solve_cubic k0 k1 k2 k3).
+  quad_nearest_from_roots q p (solver k0 k1 k2 k3).
+
+Definition quad_nearest (q : QuadBez T) (p : Point T) : option (T * T) :=
+  quad_nearest_with solve_cubic q p.
+
+(** ** QuadBez::nearest as repaired by proposed_fixes/C09-nearest-degenerate-quad.diff
+
+    Two changes to the pinned code: (1) when [c3 <= EPSILON^2 * |d0|^2] ([d1] below the rounding
+    error of [d0]: a uniformly parametrised straight line) the roots come from
+    [solve_quadratic c0 c1 c2]; (2) every root is polished by up to four Newton steps on
+    [c0 + t (c1 + t (c2 + t c3))], a step being accepted only if it decreases the residual.
+    The solvers are parameters, as above. *)
+
+Definition nr_eps2 : T := flit 0x1p-104%float (Qmake 1 (2 ^ 104)).     (* f64::EPSILON * f64::EPSILON *)
+
+Definition nr_poly (k0 k1 k2 k3 t : T) : T := k0 + t * (k1 + t * (k2 + t * k3)).
+
+(* for _ in 0..4 { ... } *)
+Fixpoint nr_polish (n : nat) (k0 k1 k2 k3 t g : T) : T :=
+  match n with
+  | O => t
+  | S n' =>
+      let dg := k1 + t * (f2 * k2 + t * (f3 * k3)) in
+      let t_new := t - g / dg in
+      let g_new := nr_poly k0 k1 k2 k3 t_new in
+      if negb (fabs g_new <? fabs g) then t
+      else nr_polish n' k0 k1 k2 k3 t_new g_new
+  end.
+
+Definition nr_polish_root (k0 k1 k2 k3 t : T) : T :=
+  nr_polish 4 k0 k1 k2 k3 t (nr_poly k0 k1 k2 k3 t).
+
+Definition quad_nearest_repaired_with (scubic : T -> T -> T -> T -> list T) (squad : T -> T -> T -> list T)
+           (q : QuadBez T) (p : Point T) : option (T * T) :=
+  let '(k0, k1, k2, k3) := quad_nearest_coeffs q p in
+  let d0 := pt_sub (q1 q) (q0 q) in
+  let roots := if k3 <=? nr_eps2 * v_hypot2 d0 then squad k0 k1 k2 else scubic k0 k1 k2 k3 in
+  quad_nearest_from_roots q p (map (nr_polish_root k0 k1 k2 k3) roots).
+
+Definition quad_nearest_repaired (q : QuadBez T) (p : Point T) : option (T * T) :=
+  quad_nearest_repaired_with solve_cubic solve_quadratic q p.
 
 (** ** CubicBez::to_quads / ToQuads::next (what [CubicBez::nearest] iterates over) *)
 
@@ -126,27 +171,36 @@ Definition nr_cubic_step (st : nr_state) (t0 t1 nt nd : T) : nr_state :=
   | None => (t0 + nt * (t1 - t0), Some nd)
   end.
 
-Fixpoint cubic_nearest_loop (c : CubicBez T) (p : Point T) (n : Z) (is : list Z) (st : nr_state)
-  : option nr_state :=
+(* [qn]: what answers [q.nearest(p, accuracy)] for a quadratic piece; the code uses [quad_nearest] *)
+Fixpoint cubic_nearest_loop_with (qn : QuadBez T -> Point T -> option (T * T))
+         (c : CubicBez T) (p : Point T) (n : Z) (is : list Z) (st : nr_state) : option nr_state :=
   match is with
   | [] => Some st
   | i :: rest =>
       let '(t0, t1, q) := nr_quads_piece c n i in
-      match quad_nearest q p with
+      match qn q p with
       | None => None
-      | Some (nt, nd) => cubic_nearest_loop c p n rest (nr_cubic_step st t0 t1 nt nd)
+      | Some (nt, nd) => cubic_nearest_loop_with qn c p n rest (nr_cubic_step st t0 t1 nt nd)
       end
   end.
 
 (* the loop for a given piece count [n] *)
-Definition cubic_nearest_n (c : CubicBez T) (p : Point T) (n : nat) : option (T * T) :=
-  match cubic_nearest_loop c p (Z.of_nat n) (map Z.of_nat (seq 0 n)) nr_init with
+Definition cubic_nearest_n_with (qn : QuadBez T -> Point T -> option (T * T))
+           (c : CubicBez T) (p : Point T) (n : nat) : option (T * T) :=
+  match cubic_nearest_loop_with qn c p (Z.of_nat n) (map Z.of_nat (seq 0 n)) nr_init with
   | Some (t, Some r) => Some (t, r)
   | _ => None                          (* best_r.unwrap() *)
   end.
 
+Definition cubic_nearest_with (qn : QuadBez T -> Point T -> option (T * T))
+           (c : CubicBez T) (p : Point T) (accuracy : T) : option (T * T) :=
+  cubic_nearest_n_with qn c p (Z.to_nat (nr_quads_count c accuracy)).
+
+Definition cubic_nearest_n (c : CubicBez T) (p : Point T) (n : nat) : option (T * T) :=
+  cubic_nearest_n_with quad_nearest c p n.
+
 Definition cubic_nearest (c : CubicBez T) (p : Point T) (accuracy : T) : option (T * T) :=
-  cubic_nearest_n c p (Z.to_nat (nr_quads_count c accuracy)).
+  cubic_nearest_with quad_nearest c p accuracy.
 
 (** ** PathSeg::nearest *)
 Definition seg_nearest (s : PathSeg T) (p : Point T) (accuracy : T) : option (T * T) :=
@@ -154,6 +208,18 @@ Definition seg_nearest (s : PathSeg T) (p : Point T) (accuracy : T) : option (T 
   | SegLine l => Some (line_nearest l p)
   | SegQuad q => quad_nearest q p
   | SegCubic c => cubic_nearest c p accuracy
+  end.
+
+(** the repaired variants of [CubicBez::nearest] and the dispatch (only [q.nearest] changes) *)
+Definition cubic_nearest_n_repaired (c : CubicBez T) (p : Point T) (n : nat) : option (T * T) :=
+  cubic_nearest_n_with quad_nearest_repaired c p n.
+Definition cubic_nearest_repaired (c : CubicBez T) (p : Point T) (accuracy : T) : option (T * T) :=
+  cubic_nearest_with quad_nearest_repaired c p accuracy.
+Definition seg_nearest_repaired (s : PathSeg T) (p : Point T) (accuracy : T) : option (T * T) :=
+  match s with
+  | SegLine l => Some (line_nearest l p)
+  | SegQuad q => quad_nearest_repaired q p
+  | SegCubic c => cubic_nearest_repaired c p accuracy
   end.
 
 End Nearest.
